@@ -191,7 +191,9 @@ mjd2hij(hij_typ_t t, hij_epo_t e, mjd_t j)
 	const unsigned int z2 = z1 - (k * 1063100U + tsh[t]) / 3000U;
 	/* output */
 	const unsigned int y = 30U * cyc + k;
-	const unsigned int m = (10000U * z2 + 285001U) / 295000U;
+	/* the 355th day is the 30th of the 12th month, there's no 13th */
+	const unsigned int m = (10000U * z2 + 285001U) / 295000U < 13U
+		? (10000U * z2 + 285001U) / 295000U : 12U;
 	const unsigned int d = z2 - (295001 * m - 290000U) / 10000U;
 	return (struct ymd_s){y, m, d};
 }
